@@ -192,6 +192,20 @@ def execute_trace(case, t):
     t.mark_nontrivial()
 
 
+def fuzz_decode(fdp):
+    K = fdp.ConsumeIntInRange(1, 6)
+    m = fdp.ConsumeIntInRange(1, 4)
+    sizes = [fdp.ConsumeIntInRange(0, 4 * m + 3) for _ in range(K)]
+    spreads = [float(fdp.ConsumeIntInRange(1, 4)) for _ in range(K)]
+    seed = fdp.ConsumeIntInRange(0, 2 ** 16)
+    return {"K": K, "m": m, "sizes": sizes, "spreads": spreads, "seed": seed}
+
+
+def fuzz_seeds():
+    return [bytes([3, 1, 0, 4, 2, 1, 2, 3, 0, 7]), bytes([4, 2, 0, 0, 9, 4, 1, 1, 2, 2, 0, 1]), bytes([2, 3, 1, 11, 3, 3, 0, 5]),
+            bytes([5, 1, 0, 1, 2, 3, 6, 4, 3, 2, 1, 1, 0, 9]), bytes([6, 2, 0, 0, 0, 8, 8, 8, 1, 1, 1, 2, 2, 2, 0, 3])]
+
+
 SUBCHECKS = [
     SubCheck(name="enumerate_size_vectors", enumerate=enumerate_cases, execute=execute_sizes, exhaustive=True,
              budget={"quick": 1, "thorough": 1}, shards={"quick": 8, "thorough": 16}, modes=["jit"],
@@ -199,6 +213,9 @@ SUBCHECKS = [
     SubCheck(name="random_sizes_ties_seeds", strategy=random_case, execute=execute_sizes,
              budget={"quick": 3000, "thorough": 80000}, shards={"quick": 3, "thorough": 16}, modes=["jit"],
              min_nontrivial_fraction=0.3),
+    SubCheck(name="donor_logic_coverage_guided_fuzz", execute=execute_sizes, fuzz_decode=fuzz_decode, fuzz_seeds=fuzz_seeds,
+             budget={"quick": 6000, "thorough": 300000}, shards={"quick": 2, "thorough": 8}, modes=["nojit"],
+             env={"NUMBA_DISABLE_JIT": "1"}),
     SubCheck(name="relabel_repopulate_histories", strategy=machine_factory, execute=execute_trace, stateful=True,
              budget={"quick": 300, "thorough": 6000}, shards={"quick": 3, "thorough": 16}, modes=["jit"]),
 ]
